@@ -317,4 +317,47 @@ theorem completing_of_mem_run (ops : List Op) (h : Op.completionPoll ∈ ops) (s
         (step_completionPoll_completing s)
     · exact ih hm _
 
+/-- participant `i` holds a completion guard -/
+def GuardAt (i : Nat) (s : St) : Prop := ∃ p, s.parts[i]? = some p ∧ p.guard = true
+
+theorem guardAt_step (i : Nat) (s : St) (op : Op) (hop : op ≠ .finish i) (h : GuardAt i s) :
+    GuardAt i (step s op).1 := by
+  obtain ⟨p, hp, hg⟩ := h
+  cases op with
+  | register =>
+    exact ⟨p, by rw [step_register_parts]; exact getElem?_append_some hp _, hg⟩
+  | waitPoll j =>
+    rcases step_waitPoll_parts s j with e | e
+    · exact ⟨p, by rw [e]; exact hp, hg⟩
+    · by_cases hji : i = j
+      · exact ⟨{ p with unseen := false }, by rw [e, getElem?_setAt, if_pos hji, hp]; rfl, hg⟩
+      · exact ⟨p, by rw [e, getElem?_setAt, if_neg hji]; exact hp, hg⟩
+  | submit =>
+    by_cases ha : p.alive = true
+    · refine ⟨{ p with unseen := true }, ?_, hg⟩
+      rw [step_submit_parts, List.getElem?_map, hp]
+      simp [ha]
+    · refine ⟨p, ?_, hg⟩
+      rw [step_submit_parts, List.getElem?_map, hp]
+      simp [ha]
+  | finish j =>
+    have hji : i ≠ j := by intro e; exact hop (by rw [e])
+    exact ⟨p, by rw [step_finish_parts, getElem?_setAt, if_neg hji]; exact hp, hg⟩
+  | completionPoll =>
+    exact ⟨p, by rw [step_completionPoll_parts]; exact hp, hg⟩
+
+theorem completing_false_of_not_mem_run (ops : List Op) (h : Op.completionPoll ∉ ops) (s : St)
+    (hs : s.completing = false) : (run s ops).1.completing = false := by
+  induction ops generalizing s with
+  | nil => exact hs
+  | cons op ops ih =>
+    rw [run_cons_fst]
+    apply ih (fun hm => h (by simp [hm]))
+    cases op with
+    | register => simpa using hs
+    | waitPoll j => rw [step_waitPoll_completing]; exact hs
+    | submit => simpa using hs
+    | finish j => simpa using hs
+    | completionPoll => exact absurd (by simp) h
+
 end TT.Shutdown
